@@ -30,6 +30,7 @@ ASSUMPTIONS = [
     "elements are harness elements that write one known chunk / consume one line or byte each",
 ]
 TRUSTED = ["the harness wrappers around builtins.open and the adapter's StringIO/BytesIO"]
+NOT_THEOREMS = ['release of real OS handles: observed through the closed flag']
 EXHAUSTIVE = {"quick": True, "thorough": True}
 
 
